@@ -44,7 +44,7 @@ type spec struct {
 	Legacy int `json:",omitempty"`
 }
 
-var writeKinds = []string{"insert", "insert", "update", "delete", "bulk", "bulk-big", "create-table", "drop-table", "create-index", "drop-index", "alter", "vacuum", "incr-vacuum", "delete-all", "update-grow", "vacuum-pagesize", "open-mid-transaction", "open-mid-transaction", "refused-read", "refused-read", "short-tail", "short-tail", "redefine-index", "redefine-index"}
+var writeKinds = []string{"insert", "insert", "update", "delete", "bulk", "bulk-big", "create-table", "drop-table", "create-index", "drop-index", "alter", "vacuum", "incr-vacuum", "delete-all", "update-grow", "vacuum-pagesize", "open-mid-transaction", "open-mid-transaction", "refused-read", "refused-read", "short-tail", "short-tail", "redefine-index", "redefine-index", "update-all", "update-all"}
 var readKinds = []string{"select", "select", "indexed", "rowid", "columns", "low-scan", "low-tables", "low-schema", "low-all", "repeat", "pk", "prepared", "select-in-lo-txn", "indexed-in-lo-txn", "low-all-in-hi-txn", "select-while-writer-open", "rowid-while-writer-open", "indexed-eq", "indexed-eq"}
 
 func TestC08History(t *testing.T) {
@@ -391,6 +391,21 @@ func run(r *vt.Run, t vt.TB, s spec) {
 			exec(fmt.Sprintf("DELETE FROM %s WHERE %s IN (SELECT %s FROM %s ORDER BY 1 LIMIT %d OFFSET %d)", tm.name, tm.orderBy(), tm.orderBy(), tm.name, 1+o.B%40, o.B%5))
 			history = append(history, "delete:"+tm.name)
 			note("dml")
+		case "update-all":
+			// every row changes: every leaf of the table (and of its indexes
+			// on that column) is rewritten, also those a long-lived handle
+			// read long ago
+			if tm == nil {
+				continue
+			}
+			{
+				col := tm.baseCols()[1]
+				if exec(fmt.Sprintf("UPDATE %s SET %s = %s || '!%d'", tm.name, col, col, o.B%10)) {
+					history = append(history, "update-all:"+tm.name)
+					note("dml")
+					classes["every-row-rewritten"] = true
+				}
+			}
 		case "delete-all":
 			if tm == nil {
 				continue
